@@ -52,7 +52,7 @@ static void run() {
     rc_run("c14-lengths", a.n(6000, 200000), 100, [&]() {
         // strings whose raw or normalised length sits at POLYSEED_STR_SIZE-3 .. +3, in ASCII (library's own truncation) and multi-byte text (normaliser path)
         const lib::LangEntry& le = REG->at(*g::lang_index()); const lib::LibWords& lw = lib::lib_words(le); RC_PRE(lw.ok);
-        int shape = *in_range<int>(0, 8); size_t target = (size_t)((long)POLYSEED_STR_SIZE + *in_range<int>(-3, 4)); std::string s, gn; int nwords = *rc::gen::element(16, 16, 17, 15, 40, 1);
+        int shape = *in_range<int>(0, 9); size_t target = (size_t)((long)POLYSEED_STR_SIZE + *in_range<int>(-3, 4)); std::string s, gn; int nwords = *rc::gen::element(16, 16, 17, 15, 40, 1);
         std::vector<std::string> t; for (int i = 0; i < nwords; i++) t.push_back(lw.w[*in_range<int>(0, 2048)]);
         switch (shape) {
         case 0: gn = "ascii-padded-last-token"; s = lib::join(t); s = pad_to(s, target, "a"); break;
@@ -62,6 +62,9 @@ static void run() {
         case 4: gn = "multibyte-padded"; s = lib::join(t); s = pad_to(s, target, *rc::gen::element<std::string>("\xe3\x81\x82", "\xc3\xa9", "\xea\xb0\x80", "\xf0\x9f\x98\x80", "\xef\xb7\xba")); break;
         case 5: gn = "spaces-only"; s = pad_to("", target, *rc::gen::element<std::string>(" ", "\xe3\x80\x80", "\xc2\xa0")); break;
         case 6: { gn = "high-bytes-at-end"; s = lib::join(t); s = pad_to(s, target > 4 ? target - 4 : 0, "b"); auto v = *vf::bytes(4); for (auto x : v) if (x) s.push_back((char)x); } break;
+        case 8: { gn = "matching-stem+accents+dangling-lead-byte";   /* every token matches in its language; the last one is a stem followed by combining accents, cut so that a lead byte ends the string */
+            std::vector<std::string> v(t.begin(), t.begin() + std::min<size_t>(t.size(), 15)); while (v.size() < 15) v.push_back(lw.w[0]); std::string stem = model::strip_marks(lw.w[*in_range<int>(0, 2048)]); auto cps = model::codepoints(stem); if (cps.size() > 4) cps.resize(4); stem = model::utf8(cps);
+            s = lib::join(v) + " " + stem; s = pad_to(s, target, "\xcc\x81"); while (s.size() < target) s.push_back('\xcc'); if (*in_range<int>(0, 2)) s.push_back(*rc::gen::element<char>('\xcc', '\xe3', '\xf0')); } break;
         case 7: { gn = "ascii-then-nonascii-beyond-limit"; s = pad_to("", target, "c"); s += "\xc3\xa9\xe3\x81\x82"; } break;
         }
         Case c; c.set("kind", *in_range<int>(0, 4) == 0 ? "password" : "phrase"); c.set("s", hex(s)); c.set("coin", (uint64_t)*g::coin()); c.set("lenient", *in_range<unsigned>(0, 2)); c.set("allocfail", *in_range<unsigned>(0, 2)); c.set("gen", gn);
